@@ -616,7 +616,7 @@ theorem commute_replace_markup_after (S : Schema) (d da db dab dba : Node) (f t 
     R' = .replace f t sl false ∧ ftoks dab.kids = ftoks dba.kids := by
   have kfa := apply_replace_fromReplace S d da f t sl b ha
   obtain ⟨hda, hft, htl, hwf, hsm⟩ := fromReplace_toks S d da f t sl kfa
-  obtain ⟨hlen, hs0⟩ := Slice.toks_length_of_wf sl hwf
+  obtain ⟨hlen, hs0⟩ := Slice.toks_length_of_wf_ex sl hwf
   have hM : M.map (Step.replace f t sl b).getMap =
       some (M.mapPos (fun p => ((p : Int) + (sl.size - ((t : Int) - f))).toNat)) :=
     markup_map_shift M plo phi hsp hle (Step.replace f t sl b).getMap _
